@@ -13,6 +13,7 @@ import (
 	"io"
 	"math/rand"
 	"os"
+	"runtime/debug"
 	"sort"
 	"strings"
 	"sync"
@@ -23,6 +24,15 @@ import (
 
 	"verif/vf"
 )
+
+// relaxGC: every reader run allocates the reader's two 4 KiB buffers while the live heap is
+// tiny, so with the default GC percentage most of the time goes into collections. Collect
+// only when the heap has grown a lot (bounded by a memory limit); restored on return.
+func relaxGC() func() {
+	old := debug.SetGCPercent(3000)
+	lim := debug.SetMemoryLimit(12 << 30)
+	return func() { debug.SetGCPercent(old); debug.SetMemoryLimit(lim) }
+}
 
 // ---------------------------------------------------------------------------
 // oracle records
